@@ -1,6 +1,10 @@
 package rules
 
 import (
+	"golang.org/x/tools/go/analysis"
+	"golang.org/x/tools/go/analysis/passes/copylock"
+	"golang.org/x/tools/go/analysis/passes/inspect"
+	"golang.org/x/tools/go/ast/inspector"
 	"fmt"
 	"go/ast"
 	"go/token"
@@ -112,6 +116,7 @@ func checkC16(c *Ctx) {
 	r.Rule("R16.5", "key-lock values: written by the owner before release only", 2)
 	r.Rule("R16.6", "every struct field of the package is classified", 1)
 	r.Rule("R16.8", "no spawned goroutine reads the caller's key slice (obligations of C04 R04.4)", 2)
+	r.Rule("R16.10", "no mutex, RWMutex or sync.Map is copied by value (copylock pass)", 1)
 	r.Rule("R16.9", "no local variable captured by a goroutine literal is written by one side and used by the other after the go statement", 1)
 	r.Rule("R16.7", "constructors initialise everything the background goroutines read before starting them", 3)
 	r.NotDecided = []string{"races inside user code and the standard library", "fields of USER class (Invalidator.Callbacks, HTTPTransfer.*, gob registry globals: registration-time)",
@@ -145,6 +150,108 @@ func checkC16(c *Ctx) {
 		}
 	}, "R16.8", "Failover.Get:caller-ttl-cell", []string{"R06.2"}, "refresh-ctx")
 	c.c16CapturedVars()
+	c.c16CopyLocks()
+	c.c16ImmutableInClosures()
+}
+
+// c16ImmutableInClosures: the path walk judges field writes where a function's own code runs; a function literal that is only
+// handed to somebody (sync.Once.Do, a callback) is not walked there. An assignment to an IMMUTABLE field inside such a literal,
+// in a function outside the constructor set, is a write after publication all the same (e.g. lazy initialisation under a Once
+// while other goroutines read the field directly).
+func (c *Ctx) c16ImmutableInClosures() {
+	r := c.R
+	info := c.Pkg.TypesInfo
+	n, bad := 0, false
+	c.eachFuncDecl(func(fd *ast.FuncDecl, fn *types.Func) {
+		name := strings.TrimPrefix(pw.FuncName(fn), "cache.")
+		if constructors[name] || c.constructionOnly()(fn) {
+			return
+		}
+		ast.Inspect(fd.Body, func(x ast.Node) bool {
+			lit, ok := x.(*ast.FuncLit)
+			if !ok {
+				return true
+			}
+			ast.Inspect(lit.Body, func(y ast.Node) bool {
+				as, ok := y.(*ast.AssignStmt)
+				if !ok {
+					return true
+				}
+				for _, l := range as.Lhs {
+					sel, ok := ast.Unparen(l).(*ast.SelectorExpr)
+					if !ok {
+						continue
+					}
+					sl := info.Selections[sel]
+					if sl == nil || sl.Kind() != types.FieldVal {
+						continue
+					}
+					fv, _ := sl.Obj().(*types.Var)
+					if fv == nil {
+						continue
+					}
+					key := ownerOf(fv, c.Pkg.Types) + "." + fname(fv)
+					fc, known := fieldTable[key]
+					if !known || fc.class != clImmutable {
+						continue
+					}
+					// a local declared inside the literal is not shared state
+					if id, ok := ast.Unparen(sel.X).(*ast.Ident); ok {
+						if o := info.ObjectOf(id); o != nil && o.Pos() >= lit.Pos() && o.Pos() < lit.End() {
+							continue
+						}
+					}
+					n++
+					bad = true
+					r.Bad("R16.2", key, "write-after-construction@"+name, c.Pos(as.Pos()), "IMMUTABLE field "+key+" is assigned inside a function literal of "+name+", outside the constructor set: readers access it without synchronisation", nil)
+				}
+				return true
+			})
+			return false
+		})
+	})
+	if !bad {
+		r.OK("R16.2", "package:closures", "no function literal outside the constructor set assigns an IMMUTABLE field")
+	}
+}
+
+// c16CopyLocks: a sync.Mutex / RWMutex / sync.Map copied by value (assignment, conversion of a dereferenced struct, value
+// receiver, range variable, argument) is a second, independent lock: whoever locks the copy excludes nobody who locks the original.
+// Decided by the standard copylock pass (golang.org/x/tools/go/analysis/passes/copylock) run on the package's non-test files — the
+// library's own lint configuration runs the tests with -vet=off, so nothing else looks at this.
+func (c *Ctx) c16CopyLocks() {
+	r := c.R
+	var diags []analysis.Diagnostic
+	files := c.Pkg.Syntax
+	pass := &analysis.Pass{
+		Analyzer:   copylock.Analyzer,
+		Fset:       c.Pkg.Fset,
+		Files:      files,
+		Pkg:        c.Pkg.Types,
+		TypesInfo:  c.Pkg.TypesInfo,
+		TypesSizes: c.Pkg.TypesSizes,
+		ResultOf:   map[*analysis.Analyzer]interface{}{inspect.Analyzer: inspector.New(files)},
+		Report:     func(d analysis.Diagnostic) { diags = append(diags, d) },
+	}
+	var runErr error
+	func() {
+		defer func() {
+			if x := recover(); x != nil {
+				runErr = fmt.Errorf("copylock pass panicked: %v", x)
+			}
+		}()
+		_, runErr = copylock.Analyzer.Run(pass)
+	}()
+	if runErr != nil {
+		r.Unknown("R16.10", "package", runErr.Error())
+		return
+	}
+	for _, d := range diags {
+		r.Bad("R16.10", "package", "lock-copied:"+c.Pos(d.Pos), c.Pos(d.Pos), d.Message+" — the copy is an independent lock guarding the same shared data", nil)
+	}
+	if len(diags) == 0 {
+		r.OK("R16.10", "package", fmt.Sprintf("no lock is copied by value (%d files)", len(files)))
+	}
 }
 
 // c16CapturedVars: a function literal started with `go` shares the variables it captures with the function that started it. A
@@ -875,7 +982,40 @@ func (c *Ctx) c16PublishBeforeStart() {
 	for _, b := range backends {
 		// fields read by the callbacks the janitor / reporter invoke
 		readBy := map[string]bool{}
-		for _, m := range []string{"deleteExpired", "Len", "evictMostExpired", "evictLeastCounter"} {
+		cbs := []string{"deleteExpired", "Len", "evictMostExpired", "evictLeastCounter"}
+		// plus whatever else of the backend's methods the constructor hands over as a value
+		if fd, _ := c.funcDecl("New" + b.Wrapper); fd != nil {
+			bodies := c.reachBodies(fd, 2)
+			bodies = append(bodies, c.referencedFuncs(bodies)...)
+			for _, bd := range bodies {
+				called := map[ast.Expr]bool{}
+				ast.Inspect(bd.Body, func(x ast.Node) bool {
+					if call, ok := x.(*ast.CallExpr); ok {
+						called[ast.Unparen(call.Fun)] = true
+					}
+					return true
+				})
+				ast.Inspect(bd.Body, func(x ast.Node) bool {
+					sel, ok := x.(*ast.SelectorExpr)
+					if !ok || called[sel] {
+						return true
+					}
+					if sl := c.Pkg.TypesInfo.Selections[sel]; sl != nil && sl.Kind() == types.MethodVal && namedTypeName(sl.Recv()) == b.Name {
+						have := false
+						for _, m := range cbs {
+							if m == sel.Sel.Name {
+								have = true
+							}
+						}
+						if !have {
+							cbs = append(cbs, sel.Sel.Name)
+						}
+					}
+					return true
+				})
+			}
+		}
+		for _, m := range cbs {
 			run := c.bk(b, b.Name+"."+m, false)
 			if run.err != nil {
 				r.Unknown("R16.7", b.Name+"."+m, run.err.Error())
